@@ -133,7 +133,7 @@ def check_all(out, facts, cfg, floors=True):
         out.floor('R11.1', 'decoding functions analysed [%s]' % cfg, n_fn, 60)
         out.floor('R11.2', 'heap-owning decoders [%s]' % cfg, len(heap_seen), 9)
         # kernel: item path descends, bulk path does not decode generic children
-        kf = facts.by_path.get('codec::decode_vec_from_items')
+        kf = roles(facts).get('items')
         if kf:
             t, v, ev = wire.infer_decoder_fn(facts, kf)
             bad = []
@@ -146,10 +146,10 @@ def check_all(out, facts, cfg, floors=True):
                         d -= 1
                     elif e[0] == 'dec' and d < 1:
                         bad.append('element decoded outside descend/ascend')
-            out.ob('R11.2', 'codec::decode_vec_from_items/descends [%s]' % cfg, not bad and any(e[0] == 'dec' for e in events(t)),
+            out.ob('R11.2', 'helper:items/descends [%s]' % cfg, not bad and any(e[0] == 'dec' for e in events(t)),
                    '; '.join(set(bad)) or 'no element decode found', kf['loc'])
         else:
-            out.fail('R11.2', 'codec::decode_vec_from_items [%s]' % cfg, 'kernel function not found (anchor missing)', '-')
+            out.fail('R11.2', 'helper:items [%s]' % cfg, 'kernel function not found (anchor missing)', '-')
 
 
 def _impl_params(facts, f):
